@@ -4,3 +4,100 @@ from harness import cascade
 PROPERTY = "C01"
 LEVEL = "model_checking"
 FAMILIES = cascade.families(("C01",), "C01")
+
+
+# ---------------------------------------------------------------------------------------------------------------------
+# family `service`: the same statement through the REAL service (prepare_problem -> get_targets -> report), so that the
+# stream-construction path of data_preparation (signed duties of isothermal streams, value unwrapping) is inside the claim.
+from symx import h  # noqa: E402
+from symx.runner import Family  # noqa: E402
+from harness import pipeline, service  # noqa: E402
+
+SERVICE_SHAPES = {
+    # (zone, name, ts, tt, duty-or-cp, dt); "X" = swept temperature; ("q", v): signed duty (isothermal: sign gives the kind)
+    "latent_hot": [("Z1", "Cond", 100.0, 100.0, ("q", -50.0), 5.0), ("Z1", "C1", 40.0, "X", ("cp", 2.0), 5.0)],
+    "latent_cold": [("Z1", "Evap", 90.0, 90.0, ("q", 40.0), 5.0), ("Z1", "H1", "X", 60.0, ("cp", 2.0), 5.0)],
+    "two_zones_latent": [("Z1", "Cond", 120.0, 120.0, ("q", -80.0), 10.0), ("Z2", "C1", 40.0, "X", ("cp", 3.0), 5.0), ("Z2", "H1", 150.0, 70.0, ("cp", 1.0), 5.0)],
+    "plain_pair": [("Z1", "H1", "X", 60.0, ("cp", 2.0), 5.0), ("Z2", "C1", 50.0, 140.0, ("cp", 3.0), 5.0)],
+}
+
+
+def body_service(ctx, case):
+    tpl = SERVICE_SHAPES[case["shape"]]
+    x = ctx.real("x", 0, 500)
+    streams, model = [], []
+    for zone, name, ts, tt, qq, dt in tpl:
+        tsv = x if ts == "X" else ctx.const(ts)
+        ttv = x if tt == "X" else ctx.const(tt)
+        if qq[0] == "cp":
+            ctx.assume(h.disj([tsv - ttv >= 1, ttv - tsv >= 1]))
+            duty = qq[1] * h.vabs(tsv - ttv)
+            hot = bool(tsv > ttv)
+            lo, hi = (ttv, tsv) if hot else (tsv, ttv)
+            q_in = duty
+        else:
+            duty = abs(qq[1])
+            hot = qq[1] < 0
+            lo, hi = (tsv - 0.01, tsv) if hot else (tsv, tsv + 0.01)
+            q_in = ctx.const(qq[1])
+            duty = ctx.const(duty)
+        streams.append({"zone": zone, "name": name, "t_supply": tsv, "t_target": ttv, "heat_flow": q_in, "dt_cont": ctx.const(dt), "htc": ctx.const(1.0)})
+        sh = -dt if hot else dt
+        model.append({"zone": zone, "hot": hot, "duty": duty, "lo": lo + sh, "hi": hi + sh})
+    # breakpoints equal or well separated
+    bps = [b for m in model for b in (m["lo"], m["hi"])]
+    conds = []
+    for a in range(len(bps)):
+        for b in range(a + 1, len(bps)):
+            d = bps[a] - bps[b]
+            c = h.disj([h.close(d, 0.0, 0.0), d >= pipeline.GAPP, -d >= pipeline.GAPP])
+            if not isinstance(c, bool):
+                conds.append(c)
+    for b in bps:     # and away from the default-utility bands anchored on the other bounds
+        for b2 in bps:
+            for off in (-0.1, 0.1, 10.0, -10.0, 9.9, -9.9, 10.1, -10.1):
+                d = b - (b2 + off)
+                c = h.disj([h.close(d, 0.0, 0.0), d >= pipeline.GAPP, -d >= pipeline.GAPP])
+                if not isinstance(c, bool):
+                    conds.append(c)
+    ctx.assume(h.conj(conds))
+    res = service.call_service(ctx, service.make_input(ctx, {"streams": streams, "utilities": [], "options": {"DO_BALANCED_CC": False}}, "dict"), project_name="Site")
+    recs = {r["name"]: r for r in service.result_view(res)["targets"]}
+    zones = sorted({m["zone"] for m in model})
+    for zn in zones + ["Site"]:
+        sts = [m for m in model if zn == "Site" or m["zone"] == zn]
+        r = recs.get(f"{zn}/Direct Integration")
+        ctx.require(r is not None, f"direct-integration record for {zn} present")
+        if r is None:
+            continue
+        totH = sum((m["duty"] for m in sts if m["hot"]), ctx.const(0.0))
+        totC = sum((m["duty"] for m in sts if not m["hot"]), ctx.const(0.0))
+        tol = 1e-6 * (totH + totC)
+
+        def above(m, b):
+            part = ctx.ite(b <= m["lo"], m["hi"] - m["lo"], ctx.ite(b >= m["hi"], 0.0, m["hi"] - b))
+            return (m["duty"] / (m["hi"] - m["lo"])) * part if not m.get("cp") else m["cp"] * part
+        Ds = []
+        for b in [x for m in sts for x in (m["lo"], m["hi"])]:
+            Ds.append(sum((above(m, b) for m in sts if not m["hot"]), ctx.const(0.0)) - sum((above(m, b) for m in sts if m["hot"]), ctx.const(0.0)))
+        Qh, Qc, Qr = r["Qh"], r["Qc"], r["Qr"]
+        ctx.require(h.conj([Qh >= -tol] + [Qh >= D - tol for D in Ds] + [h.disj([h.close(Qh, 0.0, tol)] + [h.close(Qh, D, tol) for D in Ds])]),
+                    f"C01 service {zn}: Qh equals the largest net heat deficit above any shifted temperature (or zero)")
+        ctx.require(h.conj([h.close(Qc, Qh - totC + totH, tol), h.close(Qr, totH - Qc, tol)]), f"C01 service {zn}: Qc and Qr follow from Qh and the stream duties")
+    ctx.tag("service targets compared")
+    ctx.note("Qh_site", recs["Site/Direct Integration"]["Qh"])
+
+
+def _service_cases(tier, seed):
+    shapes = ["latent_hot", "plain_pair"] if tier == "quick" else list(SERVICE_SHAPES)
+    return [{"shape": s} for s in shapes]
+
+
+FAMILIES.append(Family(
+    name="service", cases=_service_cases, body=body_service,
+    functions=["pinch_analysis_service", "prepare_problem", "_create_process_stream", "get_value", "Stream.__init__"] + cascade.FUNCS,
+    files=cascade.FILES + ["OpenPinch/main.py", "OpenPinch/analysis/data_preparation.py", "OpenPinch/analysis/direct_integration_entry.py"],
+    bounds="the real service on 2-3 stream problems (isothermal hot stream entered with negative duty, isothermal cold stream, plain pair in two zones) with one stream temperature a z3 real in [0,500]; "
+           "the duty (rational in the swept temperature only through CP x span with concrete CP) keeps the oracle linear",
+    assumptions=["pydantic stand-ins and identity curve cleaning during symbolic runs", "breakpoints equal or >= 0.25 K apart", "floats modelled as exact reals"],
+    shim_modules=None, snap="micro", split_paths=6, validate_every=4, reach=["service targets compared"], case_cap_s=3000))
